@@ -475,12 +475,15 @@ def r043(report, g, lm):
                  'comment, line break'),
                 ((('LINE_COMMENT', '//c'), ('LINE_TERMINATOR', '\n'),
                   ('LINE_TERMINATOR', '\n')), 'line comment, two breaks')):
-            for yc in (False, True):
+            for yc, wc in ((False, False), (True, False), (False, True)):
                 raw = [tok(kw)] + [tok(*x) for x in run] + [
                     tok('ID', 'x'), None]
                 it = iter(raw)
                 lexer = mk_lexer_obj(lm=lm)
                 lexer.yield_comments = yc
+                # comment capture (the parser's with_comments): the
+                # comments are kept aside, the token sequence is the same
+                lexer.with_comments = wc
                 lexer.lexer = Obj('PlyLexer', lexdata='ab', lexpos=0,
                                   begin=('pyfunc', lambda state: None))
                 lexer.get_lexer_token = ('pyfunc', lambda it=it, lexer=lexer:
@@ -513,10 +516,11 @@ def r043(report, g, lm):
                 rule.check(got == want_yc,
                            'delivery %s %s%s' % (
                                kw, label, ' (comments yielded)' if yc
-                               else ''),
+                               else ' (comments captured)' if wc else ''),
                            'Lexer.token() on %s %s ID%s' % (
                                kw, ' '.join(x[0] for x in run),
-                               ', comments yielded' if yc else ''),
+                               ', comments yielded' if yc else
+                               ', comments captured' if wc else ''),
                            'the parser receives %r, expected %r' % (
                                got, want_yc),
                            where='lexers/es5.py:Lexer._token / '
